@@ -123,6 +123,13 @@ namespace Btc.Taproot
 open Btc Gen.Taproot
 variable {α G : Type} [AddCommGroup G] {o : GroupOps α} (L : Lawful o G)
 
+/-- octets that parse as a point are not empty: Python reads them as a key, not as "no key" -/
+theorem truthyKey_of_parses (sec : Bytes) (P : α) (hP : pointFromOctets o sec = .ok P) :
+    truthyKey (some sec) = some sec := by
+  cases sec with
+  | nil => unfold pointFromOctets at hP; cases hP
+  | cons b bs => rfl
+
 theorem bits_spec : ∀ v < 255, ∀ par < 2, v &&& 254 = v →
     (par + v) &&& 254 = v ∧ (par + v) &&& 1 = par := by decide +kernel
 
@@ -154,7 +161,9 @@ theorem completeness_aux (hy : YCongr L) (hp : o.p ≤ 2 ^ 256) {H : TagHash} (h
   have hk := tweakedPubkey_ok sec (root H tree) P t hP ht
   have hopi : outputPubkeyAndInternalKey o H (some sec) (some tree) =
       .ok ((outKey o (tweakPoint o P t)).1, (outKey o (tweakPoint o P t)).2, xOnly sec) := by
+    have hne : truthyKey (some sec) = some sec := truthyKey_of_parses sec P hP
     unfold outputPubkeyAndInternalKey
+    rw [hne]
     simp only [Option.getD_some, hk]
   constructor
   · unfold outputPubkey; rw [hopi]; rfl
@@ -180,7 +189,9 @@ theorem completeness_aux (hy : YCongr L) (hp : o.p ≤ 2 ^ 256) {H : TagHash} (h
       have hpar2 : par < 2 := by
         show (o.y Q % 2).toNat < 2
         omega
-      obtain ⟨hb1, hb2⟩ := bits_spec v hv par hpar2 (by rw [LEAF_MASK] at hm; exact hm)
+      obtain ⟨hb1', hb2'⟩ := bits_spec v hv par hpar2 (by rw [LEAF_MASK] at hm; exact hm)
+      have hb1 : (par + v) &&& LEAF_MASK = v := hb1'
+      have hb2 : (par + v) &&& PARITY_MASK = par := hb2'
       have hc0 : (UInt8.ofNat (par + v)).toNat = par + v := by
         simp [UInt8.toNat_ofNat']; omega
       unfold controlBlock
